@@ -336,6 +336,10 @@ func (client *client) writeLoop() {
 						return
 					}
 				default:
+					// Nothing more will be written. Close the socket: a client that cannot be sent a DISCONNECT
+					// (MQTT 3.x after a refused request) would otherwise keep a connection nobody serves, and
+					// the read loop would stay blocked until the peer sends or leaves.
+					_ = client.rwc.Close()
 					return
 				}
 			}
